@@ -605,7 +605,7 @@ def run(ctx):
 
         raise HarnessError(f"cache layout changed: {idx}")
     alphabet = list(range(nkeys))
-    depth = 4 if th else 2
+    depth = 4 if th else 3
     seen = hist.bfs(ctx, alphabet, evaluate, depth, init_key="", extra_case={"kind": "hist"})
     n_plain = 0
     if th:
